@@ -74,6 +74,12 @@ func (p *ClntPeer) StartReader() {
 				}
 				r := &Recvd{Idx: len(p.Recv), Raw: f, Start: start, End: start + len(f), Step: rt.Step(), WStep: p.Conn.In.WrittenAt(start)}
 				m, err := Decode(f, p.Dotu)
+				if err != nil && len(f) >= 7 && f[5] == 0xFF && f[6] == 0xFF {
+					// a reply to Tversion precedes any negotiated dialect: accept either encoding
+					if m2, err2 := Decode(f, !p.Dotu); err2 == nil {
+						m, err = m2, nil
+					}
+				}
 				r.M, r.Err = m, err
 				if err != nil {
 					p.x.Violate("wire-decode", "server wrote a frame the independent decoder rejects (dotu=%v): %v: % x", p.Dotu, err, head(f, 40))
